@@ -2,7 +2,26 @@
 import os, fcntl, time
 from .core import ROOT, NCPU, sh
 
+from .core import REPO
 HARNESS = os.path.join(ROOT, "harness")
+if REPO != "/repo":
+    # Alternative repository root (used for seeded-change experiments while /repo is in use by
+    # others): a copy of the harness crate with its path dependencies pointed at REPO and its own
+    # target directory. Registered checks always run with REPO = /repo.
+    import hashlib, shutil
+    _alt = os.path.join(ROOT, "work", "harness_" + hashlib.sha256(REPO.encode()).hexdigest()[:8])
+    os.makedirs(_alt, exist_ok=True)
+    for _f in ("Cargo.toml", "Cargo.lock"):
+        _t = open(os.path.join(HARNESS, _f)).read().replace('"/repo/', '"%s/' % REPO.rstrip("/"))
+        if not os.path.exists(os.path.join(_alt, _f)) or open(os.path.join(_alt, _f)).read() != _t:
+            open(os.path.join(_alt, _f), "w").write(_t)
+    os.makedirs(os.path.join(_alt, ".cargo"), exist_ok=True)
+    shutil.copy(os.path.join(HARNESS, ".cargo", "config.toml"), os.path.join(_alt, ".cargo", "config.toml"))
+    if os.path.islink(os.path.join(_alt, "src")) or os.path.exists(os.path.join(_alt, "src")):
+        pass
+    else:
+        os.symlink(os.path.join(HARNESS, "src"), os.path.join(_alt, "src"))
+    HARNESS = _alt
 ENV = {"CARGO_NET_OFFLINE": "true", "RUSTFLAGS": "--cfg fuellabs_sway_verif",
        "CARGO_TARGET_DIR": os.path.join(HARNESS, "target")}
 
@@ -15,7 +34,7 @@ def build(bin_name, timeout=3600):
     try:
         lockfile = os.path.join(HARNESS, "Cargo.lock")
         if not os.path.exists(lockfile):
-            sh("cp /repo/Cargo.lock %s" % lockfile)
+            sh("cp %s/Cargo.lock %s" % (REPO, lockfile))
         rc, out = sh("cargo build --offline --bin %s 2>&1 | tail -60" % bin_name, cwd=HARNESS, env=ENV, timeout=timeout)
         path = os.path.join(HARNESS, "target", "debug", bin_name)
         if rc != 0 or "error" in out and not os.path.exists(path):
